@@ -148,6 +148,9 @@ func runHarness(b *built, mode string, seed uint64, requests int) (*hResults, st
 	if jerr := json.Unmarshal(data, &res); jerr != nil {
 		return nil, log, jerr
 	}
+	if err != nil && len(res.Violations) == 0 {
+		return nil, log, fmt.Errorf("the harness failed without recording a violation: %v", err)
+	}
 	return &res, log, nil
 }
 
@@ -196,6 +199,7 @@ func routerCheck(prop string) func(m routerModel, rec *ev.Recorder) []harness.Vi
 			return nil
 		}
 		rec.AddEvaluations(hres.Requests)
+		rec.Label("harness-ran", 1)
 		rec.Label("requests", hres.Requests)
 		for k, v := range hres.Labels {
 			rec.Label("req:"+k, v)
@@ -283,7 +287,8 @@ func routerProp(id, rule string, assume []string) harness.Prop[routerModel] {
 		},
 		Rule:   rule,
 		Assume: assume,
-		Floors: map[string]float64{"accepted": 0.0001},
+		// evaluations counts requests, so floors are tiny fractions: what matters is that they are not zero
+		Floors: map[string]float64{"accepted": 0.0000001, "harness-ran": 0.0000001},
 	}
 }
 
